@@ -125,11 +125,15 @@ def one_function(ctx, spec):
     fd = ast.parse(spec.src).body[0]
     before = strip_doc(fd.body)
     kinds = stmt_kinds(before)
-    base = {"op": OP, "kind": "function", "fn_kind": spec.kind, "has_doc": spec.has_doc, "has_return_stmt": bool(spec.ret_expr),
+    rc = {None: "no_return", "": "bare_return", "''": "str_empty", "'text'": "str_literal", "0": "falsy_number", "0.0": "falsy_number",
+          "False": "falsy_bool", "None": "none", "5": "int", "-1": "int_neg", "zq_result": "name", "(alpha_zq, 2)": "tuple"}.get(spec.ret_expr, "other")
+    ctx.feature("return=" + rc)
+    base = {"op": OP, "kind": "function", "fn_kind": spec.kind, "has_doc": spec.has_doc, "has_return_stmt": spec.ret_expr is not None,
+            "return_class": rc,
             "has_ret_doc": spec.has_ret_doc, "ret_ann": spec.ret_ann is not None,
             "has_nested_def": "FunctionDef" in kinds, "has_lambda": "lambda" in spec.src, "has_early_return": "If" in kinds}
     replay = {"src": spec.src}
-    ctx.case((kinds, spec.kind, spec.has_doc, bool(spec.ret_expr), len(spec.params)), nontrivial=bool(before),
+    ctx.case((kinds, spec.kind, spec.has_doc, spec.ret_expr, len(spec.params)), nontrivial=bool(before),
              sample={"src": spec.src}, sample_key=kinds[:2])
     for k in set(kinds):
         ctx.feature("stmt=" + k)
